@@ -341,6 +341,7 @@ func exec(c *Case) (fs []finding, inf info) {
 			stop = true
 			return true
 		}
+		cls("terminal-delivered/" + termName())
 		ok := err == io.EOF
 		if term != io.EOF {
 			ok = errors.Is(err, term)
@@ -759,7 +760,7 @@ func runBatch(m *mon.M, g *Regen) {
 }
 
 func run(m *mon.M) {
-	batches := m.N(25, 625)
+	batches := m.N(50, 625)
 	for b := 0; b < batches; b++ {
 		g := &Regen{Seed: m.Seed, Shard: m.Shard, Batch: b, Count: batchSize}
 		m.Begin(&Case{Regen: g, BodyKind: "batch", Stream: Script{ErrAt: -1}})
